@@ -149,6 +149,22 @@ def run_history(story: dict, ops, browser=False, per_call_s=10, on_step=None):
                     elif kind == "read":
                         read_battery(eng)
                         obs = ("ok",)
+                    elif kind == "inputs":
+                        eng.submit_inputs({op[1]: op[2]})
+                        obs = ("ok",)
+                    elif kind == "badload":
+                        # a document that passes the first checks and fails later (its stored output names no passage /
+                        # a stored choice has no target): must raise ValueError and leave the running game untouched
+                        doc = copy.deepcopy(slot) if slot is not None else json.loads(json.dumps(eng.save_state()))
+                        if isinstance(doc.get("current_output"), dict):
+                            if op[1] % 2 == 0:
+                                doc["current_output"]["passage_id"] = "Nowhere"
+                            else:
+                                doc["current_output"]["choices"] = [{"text": "Go"}]
+                        else:
+                            doc["current_passage_id"] = "Nowhere"
+                        eng.load_state(doc)
+                        obs = ("ok",)
                     elif kind == "reload":
                         # save -> JSON text -> load into a FRESH engine; play continues on that engine
                         doc = json.loads(json.dumps(eng.save_state()))
@@ -224,6 +240,10 @@ def op_term(op, tb: S.Tables):
         return "OpReset"
     if k == "read":
         return "OpRead"
+    if k == "badload":
+        return "OpBadLoad"
+    if k == "inputs":
+        return f"(OpInput {coq_str(op[1])} {coq_str(op[2])})"
     if k in ("reload", "save", "load"):
         return {"reload": "OpReload", "save": "OpSave", "load": "OpLoad"}[k]
     raise Unsupported(k)
